@@ -1,6 +1,7 @@
 package main
 
 import (
+	"context"
 	"fmt"
 	"os"
 	"time"
@@ -10,6 +11,7 @@ import (
 	"github.com/bbva/qed/crypto/hashing"
 	"github.com/bbva/qed/protocol"
 	"github.com/bbva/qed/storage/rocks"
+	"github.com/hashicorp/raft"
 	"qedverif/cq"
 )
 
@@ -227,4 +229,145 @@ func gapCmd(out *cq.Out, seed uint64, tier string) {
 		out.Count("gap_trials", 1)
 	}
 	out.Sample(map[string]interface{}{"kind": "all (requester prefix h, WAL start p) pairs of a single-node leader with 3..7 entries"})
+}
+
+// transferLive: a follower that stays UP (warm in-memory caches) while it is out of the cluster configuration, misses
+// insertions - some of them sharing hyper cache tiles with events it already holds - and is brought back by
+// InstallSnapshot -> Restore on the live process.  Also: a bulk of more than 1000 events reaching a node only through
+// state transfer.
+func transferLive(out *cq.Out, rng *cq.Rng, seed uint64, tier string) {
+	rounds := 1
+	if tier == "thorough" {
+		rounds = 3
+	}
+	for r := 0; r < rounds; r++ {
+		dir, _ := os.MkdirTemp(out.Dir, "trl")
+		c, err := newCluster(dir, 3, 8192, 0)
+		if err != nil {
+			out.Count("transfer_skipped_infrastructure", 1)
+			continue
+		}
+		var hist []string
+		desc := map[string]interface{}{"seed": seed, "live_round": r, "history": &hist}
+		out.Note(desc)
+		ev := 0
+		mk := func(k int) [][]byte {
+			var evs [][]byte
+			for j := 0; j < k; j++ {
+				evs = append(evs, []byte(fmt.Sprintf("tl%d-e%d", r, ev)))
+				ev++
+			}
+			return evs
+		}
+		addDense := func(evs [][]byte) bool {
+			before := len(c.acked)
+			snaps, err := c.add(evs)
+			if err != nil {
+				hist = append(hist, "add failed: "+err.Error())
+				return false
+			}
+			c.checkDense(out, snaps[:1], evs[:1], before, desc)
+			return true
+		}
+		ok := addDense(mk(20)) && addDense(mk(20))
+		if !ok || !c.quiesce() {
+			out.Count("transfer_skipped_infrastructure", 1)
+			c.stopAll()
+			continue
+		}
+		// events whose digests fall into cache tiles (first 20 bits) the follower already holds
+		have := map[uint32]bool{}
+		for _, e := range c.events {
+			d := hashing.NewSha256Hasher().Do(e)
+			have[uint32(d[0])<<12|uint32(d[1])<<4|uint32(d[2])>>4] = true
+		}
+		var shared [][]byte
+		for k := 0; len(shared) < 6 && k < 4000000; k++ {
+			e := []byte(fmt.Sprintf("tl%d-shared-%d", r, k))
+			d := hashing.NewSha256Hasher().Do(e)
+			if have[uint32(d[0])<<12|uint32(d[1])<<4|uint32(d[2])>>4] {
+				shared = append(shared, e)
+			}
+		}
+		l := c.leader()
+		f := (l + 1) % 3
+		fid := fmt.Sprintf("n_%d", f)
+		if err := c.nodes[l].VRaft().RemoveServer(raft.ServerID(fid), 0, 0).Error(); err != nil {
+			out.Count("transfer_skipped_infrastructure", 1)
+			c.stopAll()
+			continue
+		}
+		hist = append(hist, fmt.Sprintf("follower %d removed from the configuration, still running (leader %d)", f, l))
+		// the two remaining nodes go on; a quiescence test would wait for the removed one, so look at them only
+		removed := c.nodes[f]
+		c.nodes[f] = nil
+		ok = addDense(shared) && addDense(mk(1300)) && addDense(mk(3))
+		hist = append(hist, fmt.Sprintf("while it is out: %d events in its own cache tiles, a bulk of 1300, 3 more (now %d events)", len(shared), len(c.acked)))
+		for i, n := range c.nodes {
+			if n != nil {
+				if err := n.VForceSnapshot(); err != nil {
+					hist = append(hist, fmt.Sprintf("snapshot on %d failed: %v", i, err))
+				}
+			}
+		}
+		hist = append(hist, "raft snapshot + log truncation on the members")
+		c.nodes[f] = removed
+		if !ok || c.indet {
+			out.Count("transfer_skipped_infrastructure", 1)
+			c.stopAll()
+			continue
+		}
+		joined := false
+		for t := 0; t < 40 && !joined; t++ {
+			ll := c.leader()
+			if ll < 0 || ll == f {
+				time.Sleep(200 * time.Millisecond)
+				continue
+			}
+			_, err := c.nodes[ll].JoinCluster(context.Background(), &consensus.RaftJoinRequest{NodeId: fid, RaftAddr: fmt.Sprintf("127.0.0.1:%d", c.ports[f])})
+			if err == nil {
+				joined = true
+			} else {
+				time.Sleep(200 * time.Millisecond)
+			}
+		}
+		if !joined {
+			out.Count("transfer_skipped_infrastructure", 1)
+			c.stopAll()
+			continue
+		}
+		hist = append(hist, fmt.Sprintf("follower %d joins again (same process, warm caches)", f))
+		out.Note(desc)
+		if !c.quiesce() {
+			idx, ver := c.nodes[f].VState()
+			out.Violate("C09:no-convergence", fmt.Sprintf("the live follower did not reach the leader's version after being brought back by state transfer (its state: index %d version %d balloon %d; the log has %d events)", idx, ver, c.nodes[f].VBalloonVersion(), len(c.acked)), desc)
+			c.stopAll()
+			continue
+		}
+		c.checkReplicas(out, rng, "C09", desc)
+		// proofs of the events that share tiles, from the returned follower
+		cur := uint64(len(c.acked) - 1)
+		for i := 40; i < 40+len(shared); i++ {
+			d := hashing.NewSha256Hasher().Do(c.events[i])
+			okp := false
+			cq.Catch(func() {
+				p, err := c.nodes[f].QueryDigestMembershipConsistency(d, cur)
+				okp = err == nil && p.Exists && p.DigestVerify(d, &balloon.Snapshot{HistoryDigest: c.acked[cur].HistoryDigest, HyperDigest: c.acked[cur].HyperDigest})
+			})
+			if !okp {
+				out.Violate("C09:replica-proof-does-not-verify", fmt.Sprintf("the returned follower's membership proof for event %d (inserted while it was out, in a cache tile it already held) does not verify against the leader's snapshot", i), desc)
+				break
+			}
+		}
+		addDense(mk(2))
+		if c.quiesce() {
+			c.checkReplicas(out, rng, "C09", desc)
+		} else if !c.indet {
+			out.Violate("C09:no-convergence", "the returned follower did not apply later insertions: "+c.versions(), desc)
+		}
+		out.Count("transfer_live_rounds", 1)
+		out.Sample(map[string]interface{}{"live_round": r, "history": hist})
+		c.stopAll()
+		os.RemoveAll(dir)
+	}
 }
